@@ -557,6 +557,12 @@ func (c *Ctx) callStatic(s *State, fr *Frame, x ssa.Instruction, fn *ssa.Functio
 		if resReg != nil && v != nil {
 			fr.regs[resReg] = v
 		}
+		if v != nil {
+			if s.lastRes == nil {
+				s.lastRes = map[string]Val{}
+			}
+			s.lastRes[relFuncName(fn)] = v
+		}
 	}
 	// intrinsics
 	if h, ok := intrinsics[full]; ok {
